@@ -30,6 +30,15 @@ theorem stackAfter_cases (c : Cfg) :
       cases h : c.A.stack.getLast? with
       | none => simp
       | some old => exact .inr (.inr (.inr (.inl ⟨⟨c.A.nextEid, scr, args, old.modal⟩, old, rfl, rfl, rfl, by simp⟩)))
+    case close frm =>
+      simp only [Spec.Stack.close, Spec.Stack.top, Spec.Stack.beneath]
+      cases h : c.A.stack.getLast? with
+      | none => simp
+      | some old =>
+        by_cases hrf : frm ≠ none ∧ frm ≠ some (.scr old.screen)
+        · simp [hrf]
+        · refine .inr (.inr (.inr (.inr ⟨?_, by simp [hrf]⟩)))
+          intro h0; simp [h0] at h
     all_goals
       cases h : c.A.stack.getLast? with
       | none => simp
